@@ -88,6 +88,8 @@ func Tier() string {
 
 // Budget picks the case count for the tier; VERIF_SEARCH=1 (targeted search after a broken proof
 // or correspondence) multiplies the quick budget.
+// A Budget is a number of cases. Never take an enumeration depth or a sequence length from it: the
+// search multiplier turns depth 4 into depth 16 (seed C05-10 took 1100 s that way); pick depths by Tier().
 func Budget(quick, thorough int) int {
 	n := quick
 	if Tier() == "thorough" {
